@@ -1554,6 +1554,17 @@ def lib_getattr(it, obj: VLib, name: str):
     if k in ("RelMap", "KeySet"):
         from . import relmap
         return relmap.method(it, obj, name)
+    if k == "ModuleSpec" and name == "loader":
+        return VLib("Loader", spec=obj)
+    if k == "Loader" and name == "exec_module":
+        return VBuiltin("Loader.exec_module", self_obj=obj)
+    if k == "Module":
+        if not obj.f["executed"]:
+            it.raise_(AttributeError, "module has not been executed")
+        pt = _s().path_term(it, obj.f["spec"].f["path"])
+        if not it.branch(MODULE_DEFINES(pt, z3.StringVal(name))):
+            it.raise_(AttributeError, f"module has no attribute {name}")
+        return VBuiltin("Module.factory", self_obj=VLib("ModuleFn", module=obj, name=name))
     if k == "UUID":
         if name == "bytes":
             return obj.f["bytes"]
@@ -1599,10 +1610,63 @@ def lib_getitem(it, obj, key):
 
 
 def lib_setitem(it, obj, key, val):
+    if obj.kind == "sys.modules":
+        it.trace.append(("sys.modules-store", key, val))
+        return
     if obj.kind == "RelMap":
         from . import relmap
         return relmap.setitem(it, obj, key, val)
     raise OutOfSubset(f"item store on library object {obj.kind}")
+
+
+# ---------------------------------------------------------------------------------------------
+# importlib plug-in loading (ASSUMED semantics of importlib; what the loaded file contains stays the caller's assumption)
+#   spec_from_file_location(name, path) -> spec of THAT file; module_from_spec(spec) -> a fresh, not yet executed module object;
+#   sys.modules[name] = module registers it (recorded; process-wide registry of plug-in modules, whitelisted by C18); spec.loader.exec_module(module)
+#   executes the file once.  What the executed file defines is unknown: hasattr(module, n) is an uninterpreted function of (file path, n); calling a
+#   factory it defines yields an opaque object that is an instance of the shipped class iff the file is the shipped script (per-contract assumption).
+# ---------------------------------------------------------------------------------------------
+MODULE_DEFINES = z3.Function("MODULE_DEFINES", S, S, B_)
+
+
+@handler("importlib.util.spec_from_file_location")
+def _spec_from_file(it, self, args, kw):
+    name, path = argn(args, kw, 0, "name"), argn(args, kw, 1, "location")
+    sp = VLib("ModuleSpec", name=name, path=path)
+    it.trace.append(("import-spec", name, path, sp))
+    _s().note(it, "importlib.util.spec_from_file_location")
+    return sp
+
+
+@handler("importlib.util.module_from_spec")
+def _module_from_spec(it, self, args, kw):
+    sp = args[0]
+    if not (isinstance(sp, VLib) and sp.kind == "ModuleSpec"):
+        raise OutOfSubset("module_from_spec of something that is not a spec made here")
+    return VLib("Module", spec=sp, executed=False)
+
+
+@handler("Loader.exec_module")
+def _exec_module(it, self, args, kw):
+    m = args[0]
+    if not (isinstance(m, VLib) and m.kind == "Module") or m.f["spec"] is not self.f["spec"]:
+        raise OutOfSubset("exec_module of a module that does not belong to this spec")
+    pt = _s().path_term(it, m.f["spec"].f["path"])
+    if not it.branch(it.fs.exists(pt)):
+        it.raise_(FileNotFoundError, "plug-in script not found")
+    m.f["executed"] = True
+    it.trace.append(("import-exec", m.f["spec"].f["path"], m))
+    return NONE
+
+
+@handler("Module.factory")
+def _module_factory(it, self, args, kw):
+    m, fname = self.f["module"], self.f["name"]
+    it.trace.append(("plugin-factory", fname, m))
+    hook = getattr(it, "plugin_factory_result", None)
+    if hook is None:
+        raise OutOfSubset("call of a function defined by a dynamically loaded module")
+    return hook(it, m, fname)
 
 
 @handler("RelMap.keys")
